@@ -389,4 +389,4 @@ def run(tier, seed, pool, t0):
         rule='complete enumeration of operation sequences up to the depth bound x issuer vectors (driver thread 1, driver '
              'thread 2, agent process), each executed on a fresh hosted object of a real ServerProcess and mirrored on a local '
              'reference object; non-trivial = sequence of length >= 2',
-        exhaustive_note='states = operations executed through proxies; every sequence is an implementation trace.')
+        explanation='states = operations executed through proxies against the real manager server; transitions = the same minus one per sequence; every sequence is an implementation trace mirrored on a local reference object.')
